@@ -115,23 +115,17 @@ theorem cleanTrackerWith_fields (ord : List ReqId) (st : State) :
     (cleanTrackerWith ord st).committed = st.committed ∧ (cleanTrackerWith ord st).delayed = st.delayed := by
   simp [cleanTrackerWith]
 
-/-- without a request under the empty id and with at most one open request per address,
-    `CleanTracker` changes nothing -/
+/-- with at most one open request per address `CleanTracker` changes nothing -/
 theorem cleanLoop_noop (reqs : List (ReqId × Request))
-    (hempty : alookup "" reqs = none)
     (hinj : ∀ i j a b, alookup i reqs = some a → alookup j reqs = some b → a.accused = b.accused → i = j)
     (ids : List ReqId) (seen : List Addr)
-    (hnd : (ids.filter fun x => x ≠ "").Nodup)
+    (hnd : ids.Nodup)
     (hdis : ∀ a, a ∈ seen → ∀ i, i ∈ ids → ∀ r, alookup i reqs = some r → r.accused ≠ a) :
     cleanLoop ids seen reqs = reqs := by
   induction ids generalizing seen with
   | nil => simp [cleanLoop]
   | cons r rs ih =>
-    have hnd' : (rs.filter fun x => x ≠ "").Nodup := by
-      rw [List.filter_cons] at hnd
-      split at hnd
-      · exact (List.nodup_cons.mp hnd).2
-      · exact hnd
+    obtain ⟨hr, hnd'⟩ := List.nodup_cons.mp hnd
     unfold cleanLoop
     split
     · exact ih seen hnd' (fun a ha i hi r' hr' => hdis a ha i (List.mem_cons_of_mem _ hi) r' hr')
@@ -149,28 +143,16 @@ theorem cleanLoop_noop (reqs : List (ReqId × Request))
       · intro heq
         have hir : i = r := hinj i r r' ar hr' har heq
         subst hir
-        have hne : i ≠ "" := by
-          intro e; subst e; rw [hempty] at har; cases har
-        rw [List.filter_cons] at hnd
-        simp only [ne_eq, hne, not_false_eq_true, decide_true, if_true] at hnd
-        have := (List.nodup_cons.mp hnd).1
-        exact this (List.mem_filter.mpr ⟨hi, by simp [hne]⟩)
+        exact hr hi
       · exact hdis a ha i (List.mem_cons_of_mem _ hi) r' hr'
 
 theorem cleanTrackerWith_noop (ord : List ReqId) (st : State)
     (hord : ord.Nodup)
-    (hempty : alookup "" st.reqs = none)
     (hinj : ∀ i j a b, alookup i st.reqs = some a → alookup j st.reqs = some b → a.accused = b.accused → i = j) :
     cleanTrackerWith ord st = st := by
-  have : cleanLoop (sortIds (List.replicate ord.length "" ++ ord)) [] st.reqs = st.reqs := by
-    apply cleanLoop_noop st.reqs hempty hinj
-    · have hp : (sortIds (List.replicate ord.length "" ++ ord)).Perm (List.replicate ord.length "" ++ ord) :=
-        List.mergeSort_perm _ _
-      rw [(hp.filter _).nodup_iff, List.filter_append]
-      have : (List.replicate ord.length "").filter (fun x => decide (x ≠ "")) = [] := by
-        simp
-      rw [this, List.nil_append]
-      exact hord.sublist List.filter_sublist
+  have : cleanLoop (sortIds ord) [] st.reqs = st.reqs := by
+    apply cleanLoop_noop st.reqs hinj
+    · exact ((List.mergeSort_perm ord leS).nodup_iff).mpr hord
     · intro a ha; simp at ha
   unfold cleanTrackerWith
   rw [this]
@@ -293,12 +275,12 @@ def byzRec (env : Env) : Susp := ⟨2, env.height, env.time, 0, none⟩
 /-- everything `tallyOne` can do, by verdict -/
 theorem tallyOne_cases (F : FloatOps) (env : Env) (st : State) (del : List ReqId) (id : ReqId) :
     (alookup id st.reqs = none ∧ tallyOne F env (st, del) id = (st, del)) ∨
-    (∃ ar, alookup id st.reqs = some ar ∧ verdictOf F env ar = .none ∧ tallyOne F env (st, del) id = (st, del)) ∨
-    (∃ ar, alookup id st.reqs = some ar ∧ verdictOf F env ar = .innocent ∧
+    (∃ ar, alookup id st.reqs = some ar ∧ verdictOf env st.vstat ar = .none ∧ tallyOne F env (st, del) id = (st, del)) ∨
+    (∃ ar, alookup id st.reqs = some ar ∧ verdictOf env st.vstat ar = .innocent ∧
         tallyOne F env (st, del) id = ({ st with reqs := aerase st.reqs id }, del ++ [id])) ∨
-    (∃ ar, alookup id st.reqs = some ar ∧ verdictOf F env ar = .guilty ∧ alookup ar.accused env.prev = none ∧
+    (∃ ar, alookup id st.reqs = some ar ∧ verdictOf env st.vstat ar = .guilty ∧ alookup ar.accused env.prev = none ∧
         tallyOne F env (st, del) id = ({ st with susp := upsert st.susp ar.accused (byzRec env) }, del)) ∨
-    (∃ ar v, alookup id st.reqs = some ar ∧ verdictOf F env ar = .guilty ∧ alookup ar.accused env.prev = some v ∧
+    (∃ ar v, alookup id st.reqs = some ar ∧ verdictOf env st.vstat ar = .guilty ∧ alookup ar.accused env.prev = some v ∧
         (tallyOne F env (st, del) id).2 = del ++ [id] ∧
         (tallyOne F env (st, del) id).1.reqs = aerase st.reqs id ∧
         (tallyOne F env (st, del) id).1.susp = upsert st.susp ar.accused (byzRec env) ∧
@@ -313,7 +295,7 @@ theorem tallyOne_cases (F : FloatOps) (env : Env) (st : State) (del : List ReqId
   | some ar =>
     right
     simp only []
-    cases hv : verdictOf F env ar with
+    cases hv : verdictOf env st.vstat ar with
     | none => left; exact ⟨ar, rfl, hv, by simp⟩
     | innocent => right; left; exact ⟨ar, rfl, hv, by simp⟩
     | guilty =>
@@ -326,9 +308,9 @@ theorem tallyOne_cases (F : FloatOps) (env : Env) (st : State) (del : List ReqId
         refine ⟨ar, v, rfl, hv, hp, ?_⟩
         simp only []
         obtain ⟨h1, h2, h3, h4, h5, h6, h7, h8⟩ := minusFromAddress_fields
-          { st with susp := upsert st.susp ar.accused ⟨2, env.height, env.time, 0, none⟩ } ar.accused v.stakeAddr
+          { st with susp := upsert st.susp ar.accused ⟨2, env.height, env.time, 0, none⟩ } ar.accused (slashAddr env ar.accused v)
           (F.penalty (getI st.total ar.accused) env.opts)
-        generalize hm : minusFromAddress _ ar.accused v.stakeAddr _ = m at *
+        generalize hm : minusFromAddress _ ar.accused (slashAddr env ar.accused v) _ = m at *
         obtain ⟨m1, m2⟩ := m
         simp only at h1 h2 h3 h4 h5 h6 h7 h8
         cases m2 <;> simp [h1, h2, h3, h4, h7, h8, byzRec]
@@ -380,7 +362,7 @@ theorem tallyOne_reqs_ne (F : FloatOps) (env : Env) (st : State) (del : List Req
 /-- suspicious-validator records: unchanged, or the accused of a guilty verdict gets the record -/
 theorem tallyOne_susp (F : FloatOps) (env : Env) (st : State) (del : List ReqId) (id : ReqId) :
     (tallyOne F env (st, del) id).1.susp = st.susp ∨
-    ∃ ar, alookup id st.reqs = some ar ∧ verdictOf F env ar = .guilty ∧
+    ∃ ar, alookup id st.reqs = some ar ∧ verdictOf env st.vstat ar = .guilty ∧
       (tallyOne F env (st, del) id).1.susp = upsert st.susp ar.accused (byzRec env) := by
   rcases tallyOne_cases F env st del id with ⟨_, h⟩ | ⟨_, _, _, h⟩ | ⟨_, _, _, h⟩ | ⟨ar, h1, h2, _, h⟩ | ⟨ar, _, h1, h2, _, _, _, h, _⟩
   · left; rw [h]
@@ -398,7 +380,7 @@ theorem tallyOne_frozen_mono (F : FloatOps) (env : Env) (st : State) (del : List
     exact this
 
 theorem tallyOne_guilty_freezes (F : FloatOps) (env : Env) (st : State) (del : List ReqId) (id : ReqId) (ar : Request)
-    (har : alookup id st.reqs = some ar) (hv : verdictOf F env ar = .guilty) :
+    (har : alookup id st.reqs = some ar) (hv : verdictOf env st.vstat ar = .guilty) :
     alookup ar.accused (tallyOne F env (st, del) id).1.susp = some (byzRec env) := by
   rcases tallyOne_cases F env st del id with ⟨h0, _⟩ | ⟨ar', h1, h2, _⟩ | ⟨ar', h1, h2, _⟩ | ⟨ar', h1, _, _, h⟩ | ⟨ar', _, h1, _, _, _, _, h, _⟩
   · rw [h0] at har; cases har
@@ -462,7 +444,8 @@ theorem runUnstake_susp (st : State) (v s : Addr) (a : Int) : (runUnstake st v s
       obtain ⟨m1, m2⟩ := m
       cases m2 <;> simp_all
 
-theorem runWithdraw_susp (st : State) (v s : Addr) (a : Int) : (runWithdraw st v s a).2.susp = st.susp := by
+theorem runWithdraw_susp (st : State) (vals : List (Addr × ValRec)) (v s : Addr) (a : Int) :
+    (runWithdraw st vals v s a).2.susp = st.susp := by
   unfold runWithdraw
   simp only []
   repeat' split
@@ -502,6 +485,8 @@ theorem beginBlock_frozen_mono (o : Opts) (h now : Int) (cv : List (Addr × Int)
 theorem tallyWith_frozen_mono (F : FloatOps) (env : Env) (o₁ o₂ : List ReqId) (st : State) (a : Addr)
     (hf : isFrozen st a = true) : isFrozen (tallyWith F env o₁ o₂ st) a = true := by
   unfold tallyWith
+  split
+  · exact hf
   split
   · exact hf
   · have h0 : isFrozen (cleanTrackerWith o₁ st) a = true := by
@@ -547,9 +532,9 @@ theorem step_frozen_mono (st : State) (op : Op) (a : Addr) (hnr : NotRelease a o
     exact hf
   | stake v s amt => simp only [step]; rw [isFrozen_congr (runStake_susp st v s amt)]; exact hf
   | unstake v s amt => simp only [step]; rw [isFrozen_congr (runUnstake_susp st v s amt)]; exact hf
-  | withdraw v s amt => simp only [step]; rw [isFrozen_congr (runWithdraw_susp st v s amt)]; exact hf
+  | withdraw vals v s amt => simp only [step]; rw [isFrozen_congr (runWithdraw_susp st vals v s amt)]; exact hf
   | beginBlock o h now cv prev => exact beginBlock_frozen_mono o h now cv prev st a hf
-  | elect minSelf top h diff pop => exact Eq.trans (isFrozen_congr rfl a) hf
+  | elect minSelf top h pop => exact Eq.trans (isFrozen_congr rfl a) hf
   | tally F env => exact tallyWith_frozen_mono F env _ _ st a hf
   | commit => exact Eq.trans (isFrozen_congr rfl a) hf
 
@@ -570,6 +555,8 @@ theorem run_frozen_mono (st : State) (ops : List Op) (a : Addr) (hnr : ∀ op, o
 theorem tallyWith_reqs_mem (F : FloatOps) (env : Env) (o₁ o₂ : List ReqId) (st : State) (p : ReqId × Request)
     (h : p ∈ (tallyWith F env o₁ o₂ st).reqs) : p ∈ st.reqs := by
   unfold tallyWith at h
+  split at h
+  · exact h
   split at h
   · exact h
   · have key : ∀ q, q ∈ (List.foldl (tallyOne F env) (cleanTrackerWith o₁ st, []) (sortIds o₂)).1.reqs → q ∈ st.reqs := by
@@ -607,7 +594,7 @@ theorem step_votesNodup (st : State) (op : Op) (h : VotesNodup st) : VotesNodup 
         cases m2
         · exact h
         · intro p hp; simp only at this hp; rw [this] at hp; exact h p hp
-  | withdraw v s amt =>
+  | withdraw vals v s amt =>
     simp only [step, runWithdraw]
     repeat' split
     all_goals exact h
@@ -620,7 +607,7 @@ theorem step_votesNodup (st : State) (op : Op) (h : VotesNodup st) : VotesNodup 
       unfold beginStep
       repeat' split
       all_goals exact hs
-  | elect minSelf top hh diff pop => exact h
+  | elect minSelf top hh pop => exact h
   | tally F env =>
     intro p hp
     exact h p (tallyWith_reqs_mem F env _ _ st p hp)
@@ -744,16 +731,13 @@ theorem mem_frozenSet {susp : List (Addr × Susp)} {a : Addr} {s : Susp}
 
 
 
+
 /-! ## the tally as a whole -/
 
 theorem cleanTrackerWith_perm {a₁ a₂ : List ReqId} (h : a₁.Perm a₂) (st : State) :
     cleanTrackerWith a₁ st = cleanTrackerWith a₂ st := by
   unfold cleanTrackerWith
-  have : sortIds (List.replicate a₁.length "" ++ a₁) = sortIds (List.replicate a₂.length "" ++ a₂) := by
-    apply sortIds_perm
-    rw [h.length_eq]
-    exact List.Perm.append_left _ h
-  rw [this]
+  rw [sortIds_perm h]
 
 theorem tallyWith_perm (F : FloatOps) (env : Env) {a₁ a₂ b₁ b₂ : List ReqId} (ha : a₁.Perm a₂) (hb : b₁.Perm b₂)
     (st : State) : tallyWith F env a₁ b₁ st = tallyWith F env a₂ b₂ st := by
@@ -769,62 +753,70 @@ theorem tallyOne_keeps_byz (F : FloatOps) (env : Env) (st : State) (del : List R
     · rfl
     · exact h
 
-theorem tallyFold_guilty (F : FloatOps) (env : Env) (ids : List ReqId) (acc : State × List ReqId) (id : ReqId)
-    (ar : Request) (hid : id ∈ ids) (har : alookup id acc.1.reqs = some ar) (hv : verdictOf F env ar = .guilty) :
+theorem tallyOne_vstat (F : FloatOps) (env : Env) (st : State) (del : List ReqId) (id : ReqId) :
+    (tallyOne F env (st, del) id).1.vstat = st.vstat := (tallyOne_static F env st del id).1
+
+/-- the status records do not change during the loop -/
+theorem tallyFold_vstat (F : FloatOps) (env : Env) (ids : List ReqId) (acc : State × List ReqId) :
+    (ids.foldl (tallyOne F env) acc).1.vstat = acc.1.vstat :=
+  tallyFold_inv F env (fun s => s.vstat = acc.1.vstat)
+    (fun s del id hs => by rw [tallyOne_vstat]; exact hs) ids acc rfl
+
+theorem tallyFold_guilty (F : FloatOps) (env : Env) (vs : List (Addr × VStat)) (ids : List ReqId)
+    (acc : State × List ReqId) (id : ReqId) (ar : Request) (hvs : acc.1.vstat = vs)
+    (hid : id ∈ ids) (har : alookup id acc.1.reqs = some ar) (hv : verdictOf env vs ar = .guilty) :
     alookup ar.accused (ids.foldl (tallyOne F env) acc).1.susp = some (byzRec env) := by
   induction ids generalizing acc with
   | nil => simp at hid
   | cons i rest ih =>
     rw [List.foldl_cons]
     obtain ⟨st, del⟩ := acc
+    simp only at hvs har
     by_cases hi : id = i
     · subst hi
       exact tallyFold_inv F env (fun s => alookup ar.accused s.susp = some (byzRec env))
         (fun s d j hs => tallyOne_keeps_byz F env s d j ar.accused hs) rest _
-        (tallyOne_guilty_freezes F env st del id ar har hv)
+        (tallyOne_guilty_freezes F env st del id ar har (by rw [hvs]; exact hv))
     · have hid' : id ∈ rest := by
         rcases List.mem_cons.mp hid with h | h
         · exact absurd h hi
         · exact h
-      apply ih _ hid'
-      generalize hto : tallyOne F env (st, del) i = r
-      obtain ⟨st', del'⟩ := r
-      have := tallyOne_reqs_ne F env st del i id hi
-      rw [hto] at this
-      simp only at this ⊢
-      rw [this]; exact har
+      apply ih _ _ hid'
+      · rw [tallyOne_reqs_ne F env st del i id hi]; exact har
+      · rw [tallyOne_vstat]; exact hvs
 
-theorem tallyFold_susp_change (F : FloatOps) (env : Env) (ids : List ReqId) (acc : State × List ReqId) (a : Addr)
+theorem tallyFold_susp_change (F : FloatOps) (env : Env) (vs : List (Addr × VStat)) (ids : List ReqId)
+    (acc : State × List ReqId) (a : Addr) (hvs : acc.1.vstat = vs)
     (h : alookup a (ids.foldl (tallyOne F env) acc).1.susp ≠ alookup a acc.1.susp) :
-    ∃ id ar, id ∈ ids ∧ alookup id acc.1.reqs = some ar ∧ ar.accused = a ∧ verdictOf F env ar = .guilty := by
+    ∃ id ar, id ∈ ids ∧ alookup id acc.1.reqs = some ar ∧ ar.accused = a ∧ verdictOf env vs ar = .guilty := by
   induction ids generalizing acc with
   | nil => exact absurd rfl h
   | cons i rest ih =>
     rw [List.foldl_cons] at h
     obtain ⟨st, del⟩ := acc
+    simp only at hvs
     by_cases hstep : alookup a (tallyOne F env (st, del) i).1.susp = alookup a st.susp
     · have h' : alookup a (rest.foldl (tallyOne F env) (tallyOne F env (st, del) i)).1.susp ≠
           alookup a (tallyOne F env (st, del) i).1.susp := by rw [hstep]; exact h
-      obtain ⟨id, ar, hid, har, hacc, hv⟩ := ih _ h'
-      refine ⟨id, ar, List.mem_cons_of_mem _ hid, ?_, hacc, hv⟩
-      generalize hto : tallyOne F env (st, del) i = r at har
-      obtain ⟨st', del'⟩ := r
-      have := tallyOne_reqs_sub F env st del i id ar
-      rw [hto] at this
-      exact this har
+      obtain ⟨id, ar, hid, har, hacc, hv⟩ := ih _ (by rw [tallyOne_vstat]; exact hvs) h'
+      exact ⟨id, ar, List.mem_cons_of_mem _ hid, tallyOne_reqs_sub F env st del i id ar har, hacc, hv⟩
     · rcases tallyOne_susp F env st del i with e | ⟨ar, har, hv, e⟩
       · rw [e] at hstep; exact absurd rfl hstep
-      · refine ⟨i, ar, by simp, har, ?_, hv⟩
+      · refine ⟨i, ar, by simp, har, ?_, by rw [← hvs]; exact hv⟩
         rw [e] at hstep
         by_cases haa : a = ar.accused
         · exact haa.symm
         · rw [alookup_upsert_ne _ _ _ _ haa] at hstep; exact absurd rfl hstep
 
-theorem tallyFold_none_keeps (F : FloatOps) (env : Env) (ids : List ReqId) (acc : State × List ReqId) (id : ReqId)
-    (ar : Request) (har : alookup id acc.1.reqs = some ar) (hv : verdictOf F env ar = .none) :
+theorem tallyFold_none_keeps (F : FloatOps) (env : Env) (vs : List (Addr × VStat)) (ids : List ReqId)
+    (acc : State × List ReqId) (id : ReqId) (ar : Request) (hvs : acc.1.vstat = vs)
+    (har : alookup id acc.1.reqs = some ar) (hv : verdictOf env vs ar = .none) :
     alookup id (ids.foldl (tallyOne F env) acc).1.reqs = some ar := by
-  apply tallyFold_inv F env (fun s => alookup id s.reqs = some ar) _ ids acc har
-  intro st del i hs
+  have := tallyFold_inv F env (fun s => s.vstat = vs ∧ alookup id s.reqs = some ar) ?_ ids acc ⟨hvs, har⟩
+  · exact this.2
+  intro st del i ⟨hs1, hs⟩
+  refine ⟨by rw [tallyOne_vstat]; exact hs1, ?_⟩
+  rw [← hs1] at hv
   by_cases hi : id = i
   · subst hi
     rcases tallyOne_cases F env st del id with ⟨h0, _⟩ | ⟨_, _, _, h⟩ | ⟨ar', h1, h2, _⟩ | ⟨ar', h1, h2, _⟩ | ⟨ar', _, h1, h2, _⟩
@@ -835,17 +827,20 @@ theorem tallyFold_none_keeps (F : FloatOps) (env : Env) (ids : List ReqId) (acc 
     · rw [h1] at hs; cases hs; rw [h2] at hv; cases hv
   · rw [tallyOne_reqs_ne F env st del i id hi]; exact hs
 
-theorem tallyFold_decided_erases (F : FloatOps) (env : Env) (ids : List ReqId) (acc : State × List ReqId) (id : ReqId)
-    (ar : Request) (hid : id ∈ ids) (har : alookup id acc.1.reqs = some ar)
-    (hv : verdictOf F env ar = .innocent ∨ (verdictOf F env ar = .guilty ∧ (alookup ar.accused env.prev).isSome)) :
+theorem tallyFold_decided_erases (F : FloatOps) (env : Env) (vs : List (Addr × VStat)) (ids : List ReqId)
+    (acc : State × List ReqId) (id : ReqId) (ar : Request) (hvs : acc.1.vstat = vs)
+    (hid : id ∈ ids) (har : alookup id acc.1.reqs = some ar)
+    (hv : verdictOf env vs ar = .innocent ∨ (verdictOf env vs ar = .guilty ∧ (alookup ar.accused env.prev).isSome)) :
     alookup id (ids.foldl (tallyOne F env) acc).1.reqs = none := by
   induction ids generalizing acc with
   | nil => simp at hid
   | cons i rest ih =>
     rw [List.foldl_cons]
     obtain ⟨st, del⟩ := acc
+    simp only at hvs har
     by_cases hi : id = i
     · subst hi
+      rw [← hvs] at hv
       apply tallyFold_inv F env (fun s => alookup id s.reqs = none)
       · intro s d j hs
         cases hl : alookup id (tallyOne F env (s, d) j).1.reqs with
@@ -864,50 +859,55 @@ theorem tallyFold_decided_erases (F : FloatOps) (env : Env) (ids : List ReqId) (
         rcases List.mem_cons.mp hid with h | h
         · exact absurd h hi
         · exact h
-      apply ih _ hid'
-      rw [tallyOne_reqs_ne F env st del i id hi]; exact har
+      apply ih _ _ hid'
+      · rw [tallyOne_reqs_ne F env st del i id hi]; exact har
+      · rw [tallyOne_vstat]; exact hvs
 
-
-
+/-- the tally runs: somebody is active and the two decimals options are positive -/
+def TallyRuns (env : Env) : Prop := env.active ≠ 0 ∧ 0 < env.opts.voteDec ∧ 0 < env.opts.allegDec
 
 /-- `tallyWith` = cleanup, loop, tracker rewrite: records other than the tracker are the loop's -/
-theorem tallyWith_eq (F : FloatOps) (env : Env) (o₁ o₂ : List ReqId) (st : State) (hact : env.active ≠ 0) :
+theorem tallyWith_eq (F : FloatOps) (env : Env) (o₁ o₂ : List ReqId) (st : State) (hrun : TallyRuns env) :
     (tallyWith F env o₁ o₂ st).susp = ((sortIds o₂).foldl (tallyOne F env) (cleanTrackerWith o₁ st, [])).1.susp ∧
-    (tallyWith F env o₁ o₂ st).reqs = ((sortIds o₂).foldl (tallyOne F env) (cleanTrackerWith o₁ st, [])).1.reqs := by
+    (tallyWith F env o₁ o₂ st).reqs = ((sortIds o₂).foldl (tallyOne F env) (cleanTrackerWith o₁ st, [])).1.reqs ∧
+    (tallyWith F env o₁ o₂ st).vstat = st.vstat := by
+  obtain ⟨h1, h2, h3⟩ := hrun
+  have hd : ¬ (env.opts.voteDec ≤ 0 ∨ env.opts.allegDec ≤ 0) := by omega
+  have hv := tallyFold_vstat F env (sortIds o₂) (cleanTrackerWith o₁ st, [])
+  simp only [(cleanTrackerWith_fields o₁ st).2.1] at hv
   unfold tallyWith
-  simp only [hact, if_false]
-  split <;> simp
+  simp only [h1, hd, if_false]
+  split <;> simp [hv]
 
-theorem tallyWith_inactive (F : FloatOps) (env : Env) (o₁ o₂ : List ReqId) (st : State) (hact : env.active = 0) :
+theorem tallyWith_skipped (F : FloatOps) (env : Env) (o₁ o₂ : List ReqId) (st : State) (h : ¬ TallyRuns env) :
     tallyWith F env o₁ o₂ st = st := by
-  unfold tallyWith; simp [hact]
+  unfold tallyWith
+  by_cases h1 : env.active = 0
+  · simp [h1]
+  · have : env.opts.voteDec ≤ 0 ∨ env.opts.allegDec ≤ 0 := by
+      unfold TallyRuns at h; omega
+    simp [h1, this]
 
-/-! ## thresholds in exact rationals -/
+/-! ## thresholds (integer arithmetic in the code) -/
 
-theorem verdictOf_exact_guilty (env : Env) (ar : Request) :
-    verdictOf exactOps env ar = .guilty ↔
-      countChoice 1 ar.votes * env.opts.allegDec >
-        env.opts.allegPct * ((env.active * env.opts.votePct + env.opts.voteDec - 1) / env.opts.voteDec) := by
-  unfold verdictOf exactOps
+theorem verdictOf_guilty (env : Env) (vs : List (Addr × VStat)) (ar : Request) :
+    verdictOf env vs ar = .guilty ↔
+      countChoice 1 (activeVotes vs ar) * env.opts.allegDec > env.opts.allegPct * requiredVotes env.active env.opts := by
+  unfold verdictOf
   simp only
   constructor
   · intro h
     split at h
-    · rename_i hg; simpa using hg
+    · assumption
     · split at h <;> cases h
-  · intro h
-    have : decide (countChoice 1 ar.votes * env.opts.allegDec >
-        env.opts.allegPct * ((env.active * env.opts.votePct + env.opts.voteDec - 1) / env.opts.voteDec)) = true := by
-      simpa using h
-    simp [this]
+  · intro h; simp [h]
 
-theorem verdictOf_exact_innocent (env : Env) (ar : Request) :
-    verdictOf exactOps env ar = .innocent ↔
-      ¬ (countChoice 1 ar.votes * env.opts.allegDec >
-        env.opts.allegPct * ((env.active * env.opts.votePct + env.opts.voteDec - 1) / env.opts.voteDec)) ∧
-      countChoice 2 ar.votes * env.opts.allegDec >
-        (env.opts.allegDec - env.opts.allegPct) * ((env.active * env.opts.votePct + env.opts.voteDec - 1) / env.opts.voteDec) := by
-  unfold verdictOf exactOps
+theorem verdictOf_innocent (env : Env) (vs : List (Addr × VStat)) (ar : Request) :
+    verdictOf env vs ar = .innocent ↔
+      ¬ (countChoice 1 (activeVotes vs ar) * env.opts.allegDec > env.opts.allegPct * requiredVotes env.active env.opts) ∧
+      countChoice 2 (activeVotes vs ar) * env.opts.allegDec >
+        (env.opts.allegDec - env.opts.allegPct) * requiredVotes env.active env.opts := by
+  unfold verdictOf
   simp only
   constructor
   · intro h
@@ -915,41 +915,38 @@ theorem verdictOf_exact_innocent (env : Env) (ar : Request) :
     · cases h
     · rename_i hg
       split at h
-      · rename_i hi
-        exact ⟨by simpa using hg, by simpa using hi⟩
+      · rename_i hi; exact ⟨hg, hi⟩
       · cases h
-  · intro ⟨h1, h2⟩
-    have e1 : decide (countChoice 1 ar.votes * env.opts.allegDec >
-        env.opts.allegPct * ((env.active * env.opts.votePct + env.opts.voteDec - 1) / env.opts.voteDec)) = false := by
-      simpa using h1
-    have e2 : decide (countChoice 2 ar.votes * env.opts.allegDec >
-        (env.opts.allegDec - env.opts.allegPct) * ((env.active * env.opts.votePct + env.opts.voteDec - 1) / env.opts.voteDec)) = true := by
-      simpa using h2
-    simp [e1, e2]
+  · intro ⟨h1, h2⟩; simp [h1, h2]
 
-/-- a `FloatOps` that agrees with the exact reading where the tally evaluates it -/
-structure Exact (F : FloatOps) : Prop where
-  required : ∀ a o, F.required a o = exactOps.required a o
-  guiltyGt : ∀ y r o, F.guiltyGt y r o = exactOps.guiltyGt y r o
-  innocentGt : ∀ n r o, F.innocentGt n r o = exactOps.innocentGt n r o
-  penalty : ∀ s o, F.penalty s o = exactOps.penalty s o
-
-theorem verdictOf_of_exact {F : FloatOps} (hF : Exact F) (env : Env) (ar : Request) :
-    verdictOf F env ar = verdictOf exactOps env ar := by
-  unfold verdictOf
-  simp only [hF.required, hF.guiltyGt, hF.innocentGt]
-
-/-- `required = ⌈active·votePct / voteDec⌉` -/
-theorem required_is_ceil (active : Int) (o : Opts) (hd : 0 < o.voteDec) :
-    let r := exactOps.required active o
+/-- `requiredVotes = ⌈active·votePct / voteDec⌉` when the share is not negative -/
+theorem required_is_ceil (active : Int) (o : Opts) (hd : 0 < o.voteDec) (hp : 0 ≤ o.votePct) (ha : 0 < active) :
+    let r := requiredVotes active o
     o.voteDec * (r - 1) < active * o.votePct ∧ active * o.votePct ≤ o.voteDec * r := by
-  simp only [exactOps]
+  simp only [requiredVotes]
+  have hx : 0 ≤ active * o.votePct := Int.mul_nonneg (by omega) hp
+  rw [Int.tdiv_eq_ediv_of_nonneg (by omega)]
   have h1 := Int.mul_ediv_self_le (x := active * o.votePct + o.voteDec - 1) (k := o.voteDec) (by omega)
   have h2 := Int.lt_mul_ediv_self_add (x := active * o.votePct + o.voteDec - 1) (k := o.voteDec) hd
   generalize (active * o.votePct + o.voteDec - 1) / o.voteDec = q at *
   generalize active * o.votePct = x at *
   rw [Int.mul_sub, Int.mul_one]
   constructor <;> omega
+
+/-- the verdict looks at the votes of currently active validators only -/
+theorem activeVotes_idem (vs : List (Addr × VStat)) (ar : Request) :
+    activeVotes vs { ar with votes := activeVotes vs ar } = activeVotes vs ar := by
+  unfold activeVotes
+  simp only [List.filter_filter, Bool.and_self]
+
+theorem verdictOf_congr_votes (env : Env) (vs : List (Addr × VStat)) (ar ar' : Request)
+    (h : activeVotes vs ar = activeVotes vs ar') : verdictOf env vs ar = verdictOf env vs ar' := by
+  unfold verdictOf
+  simp only [h]
+
+/-- a `FloatOps` whose penalty agrees with the exact reading -/
+structure Exact (F : FloatOps) : Prop where
+  penalty : ∀ s o, F.penalty s o = exactOps.penalty s o
 
 /-! ## the penalty in exact arithmetic -/
 
@@ -985,24 +982,11 @@ theorem bounty_bounds (P cp cd : Int) (hd : 0 < cd) (hP : 0 ≤ P) (h0 : 0 ≤ c
   · apply Int.ediv_le_of_le_mul hd
     exact Int.mul_le_mul_of_nonneg_left h1 he
 
-/-! ## votes of currently active validators -/
-
-theorem filter_active_self (st : State) (votes : List Vote) (h : ∀ v, v ∈ votes → isActive st v.addr = true) :
-    votes.filter (fun v => isActive st v.addr) = votes := List.filter_eq_self.mpr h
-
-
-
-
 /-! ## release only after the release time -/
 
 /-- `a` carries a byzantine-fault record, still frozen, written at or after `t0` -/
 def ByzSince (st : State) (a : Addr) (t0 : Int) : Prop :=
   ∃ s, alookup a st.susp = some s ∧ s.status = 2 ∧ isFrozenRec s = true ∧ t0 ≤ s.frozenAt
-
-/-- the BeginBlock freeze check does not find `a` short of votes -/
-def NoMissed (a : Addr) : Op → Prop
-  | .beginBlock o _ _ cv _ => ∀ n, (a, n) ∈ cv → ¬ n < o.minVotesRequired
-  | _ => True
 
 /-- block times from `t0` on -/
 def TimeFrom (t0 : Int) : Op → Prop
@@ -1027,9 +1011,13 @@ theorem beginStep_lookup_other (o : Opts) (h now : Int) (prev : List (Addr × Va
   repeat' split
   all_goals first | rfl | exact alookup_upsert_ne _ _ _ _ hne
 
-theorem beginStep_enough_votes (o : Opts) (h now : Int) (prev : List (Addr × ValRec)) (st : State) (p : Addr × Int)
-    (hv : ¬ p.2 < o.minVotesRequired) : beginStep o h now prev st p = st := by
-  unfold beginStep; simp [hv]
+theorem beginStep_frozen_skip (o : Opts) (h now : Int) (prev : List (Addr × ValRec)) (st : State) (p : Addr × Int)
+    (hf : isFrozen st p.1 = true) : beginStep o h now prev st p = st := by
+  unfold beginStep; simp [hf]
+
+theorem isFrozen_of_byzSince {st : State} {a : Addr} {t0 : Int} (hb : ByzSince st a t0) : isFrozen st a = true := by
+  obtain ⟨s, h1, _, h3, _⟩ := hb
+  unfold isFrozen; rw [h1]; exact h3
 
 theorem tallyOne_byzSince (F : FloatOps) (env : Env) (st : State) (del : List ReqId) (id : ReqId) (a : Addr) (t0 : Int)
     (ht : t0 ≤ env.time) (hb : ByzSince st a t0) : ByzSince (tallyOne F env (st, del) id).1 a t0 := by
@@ -1040,7 +1028,7 @@ theorem tallyOne_byzSince (F : FloatOps) (env : Env) (st : State) (del : List Re
       exact ⟨byzRec env, by rw [e]; simp, rfl, rfl, ht⟩
     · exact byzSince_of_lookup (by rw [e, alookup_upsert_ne _ _ _ _ haa]) hb
 
-theorem step_byzSince (st : State) (op : Op) (a : Addr) (t0 : Int) (hnr : NotRelease a op) (hnm : NoMissed a op)
+theorem step_byzSince (st : State) (op : Op) (a : Addr) (t0 : Int) (hnr : NotRelease a op)
     (htf : TimeFrom t0 op) (hb : ByzSince st a t0) : ByzSince (step st op) a t0 := by
   cases op with
   | allege h rep acc id bh sig fee =>
@@ -1051,39 +1039,37 @@ theorem step_byzSince (st : State) (op : Op) (a : Addr) (t0 : Int) (hnr : NotRel
     exact byzSince_of_lookup (withAdmission_susp_lookup st sig fee _ a (handleRelease_other st days val h now a (Ne.symm hnr))) hb
   | stake v s amt => exact byzSince_of_lookup (by simp only [step]; rw [runStake_susp]) hb
   | unstake v s amt => exact byzSince_of_lookup (by simp only [step]; rw [runUnstake_susp]) hb
-  | withdraw v s amt => exact byzSince_of_lookup (by simp only [step]; rw [runWithdraw_susp]) hb
+  | withdraw vals v s amt => exact byzSince_of_lookup (by simp only [step]; rw [runWithdraw_susp]) hb
   | beginBlock o h now cv prev =>
     simp only [step, beginBlock]
     split
     · exact hb
     · apply foldl_inv_mem _ (fun s => ByzSince s a t0) _ _ _ hb
-      intro s p hp hs
-      have hp' : p ∈ cv := List.mem_mergeSort.mp hp
+      intro s p _ hs
       by_cases hpa : a = p.1
-      · have : ¬ p.2 < o.minVotesRequired := hnm p.2 (by rw [hpa]; exact hp')
-        rw [beginStep_enough_votes o h now prev s p this]; exact hs
+      · rw [beginStep_frozen_skip o h now prev s p (by rw [← hpa]; exact isFrozen_of_byzSince hs)]; exact hs
       · exact byzSince_of_lookup (beginStep_lookup_other o h now prev s p a hpa) hs
-  | elect minSelf top h diff pop => exact byzSince_of_lookup rfl hb
+  | elect minSelf top h pop => exact byzSince_of_lookup rfl hb
   | tally F env =>
     simp only [step, tally]
-    by_cases hact : env.active = 0
-    · rw [tallyWith_inactive F env _ _ st hact]; exact hb
+    by_cases hact : TallyRuns env
     · apply byzSince_of_lookup (st := ((sortIds st.tracker).foldl (tallyOne F env) (cleanTrackerWith st.tracker st, [])).1)
       · rw [(tallyWith_eq F env _ _ st hact).1]
       · apply tallyFold_inv F env (fun s => ByzSince s a t0)
         · intro s del id hs; exact tallyOne_byzSince F env s del id a t0 htf hs
         · exact byzSince_of_lookup (by rw [(cleanTrackerWith_fields _ st).1]) hb
+    · rw [tallyWith_skipped F env _ _ st hact]; exact hb
   | commit => exact byzSince_of_lookup rfl hb
 
 theorem run_byzSince (st : State) (ops : List Op) (a : Addr) (t0 : Int)
-    (hops : ∀ op, op ∈ ops → NotRelease a op ∧ NoMissed a op ∧ TimeFrom t0 op)
+    (hops : ∀ op, op ∈ ops → NotRelease a op ∧ TimeFrom t0 op)
     (hb : ByzSince st a t0) : ByzSince (run st ops) a t0 := by
   induction ops generalizing st with
   | nil => exact hb
   | cons op rest ih =>
     simp only [run, List.foldl_cons]
-    obtain ⟨h1, h2, h3⟩ := hops op (by simp)
-    exact ih (step st op) (fun o ho => hops o (List.mem_cons_of_mem _ ho)) (step_byzSince st op a t0 h1 h2 h3 hb)
+    obtain ⟨h1, h3⟩ := hops op (by simp)
+    exact ih (step st op) (fun o ho => hops o (List.mem_cons_of_mem _ ho)) (step_byzSince st op a t0 h1 h3 hb)
 
 /-- `HandleRelease` succeeds on a byzantine-fault record only after the release time -/
 theorem handleRelease_ok_time (st st' : State) (days : Int) (a : Addr) (h now t0 : Int)
@@ -1114,34 +1100,114 @@ theorem minusFromAddress_ok (st : State) (v d : Addr) (c : Int) (h1 : c ≤ getI
   have e3 : ¬ getI st.de d - c < 0 := by omega
   simp [e1, e2, e3]
 
-theorem minusFromAddress_total (st : State) (v d : Addr) (c : Int) (h1 : c ≤ getI st.total v) :
-    getI (minusFromAddress st v d c).1.total v = getI st.total v - c := by
+/-- a refused debit writes nothing -/
+theorem minusFromAddress_refused (st : State) (v d : Addr) (c : Int)
+    (h : ¬ (c ≤ getI st.total v ∧ c ≤ getI st.vd (v, d) ∧ c ≤ getI st.de d)) :
+    minusFromAddress st v d c = (st, false) := by
   unfold minusFromAddress
   simp only []
-  have e1 : ¬ getI st.total v - c < 0 := by omega
-  simp only [e1, if_false]
-  split
-  · simp [getI]
-  · split <;> simp [getI]
+  repeat' split
+  all_goals first | rfl | (exfalso; apply h; refine ⟨?_, ?_, ?_⟩ <;> omega)
 
 theorem minusFromAddress_bounty (st : State) (v d : Addr) (c : Int) :
     (minusFromAddress st v d c).1.bounty = st.bounty := (minusFromAddress_fields st v d c).2.2.2.2.1
 
 /-- the loop body on a guilty verdict against an address that has a validator record -/
 theorem tallyOne_guilty_eq (F : FloatOps) (env : Env) (st : State) (del : List ReqId) (id : ReqId) (ar : Request)
-    (v : ValRec) (har : alookup id st.reqs = some ar) (hv : verdictOf F env ar = .guilty)
+    (v : ValRec) (har : alookup id st.reqs = some ar) (hv : verdictOf env st.vstat ar = .guilty)
     (hp : alookup ar.accused env.prev = some v) :
     tallyOne F env (st, del) id =
       (let P := F.penalty (getI st.total ar.accused) env.opts;
-       let m := minusFromAddress { st with susp := upsert st.susp ar.accused (byzRec env) } ar.accused v.stakeAddr P;
+       let m := minusFromAddress { st with susp := upsert st.susp ar.accused (byzRec env) } ar.accused (slashAddr env ar.accused v) P;
        let st3 : State := if m.2 then { m.1 with bounty := m.1.bounty + P * e18 * env.opts.bountyPct / env.opts.bountyDec } else m.1;
-       ({ st3 with delayed := upsert st3.delayed (env.height, ar.accused) P, reqs := aerase st3.reqs id }, del ++ [id])) := by
+       let st4 : State := if m.2 then { st3 with delayed := upsert st3.delayed (env.height, ar.accused) P } else st3;
+       ({ st4 with reqs := aerase st4.reqs id }, del ++ [id])) := by
   unfold tallyOne
   simp only [har, hv, hp]
   rfl
 
+/-! ## the owner guard of WITHDRAW -/
 
+theorem frozenOwner_of_mem (st : State) (vals : List (Addr × ValRec)) (v s : Addr) (r : ValRec)
+    (hm : (v, r) ∈ vals) (hs : r.stakeAddr = s) (hf : isFrozen st v = true) : frozenOwner st vals s = true := by
+  unfold frozenOwner
+  exact List.any_eq_true.mpr ⟨(v, r), hm, by simp [hs, hf]⟩
 
+/-! ## the tracker is a set -/
+
+theorem step_trackerNodup (st : State) (op : Op) (h : st.tracker.Nodup) : (step st op).tracker.Nodup := by
+  cases op with
+  | allege hh rep acc id bh sig fee =>
+    apply withAdmission_inv (fun s => s.tracker.Nodup) st sig fee _ h
+    unfold runAllege performAllegation
+    repeat' split
+    all_goals try exact h
+    simp only
+    split
+    · exact h
+    · rename_i hc
+      rw [List.nodup_append]
+      refine ⟨h, by simp, ?_⟩
+      intro a ha b hb
+      simp at hb
+      subst hb
+      intro e; subst e
+      exact hc (by simpa using ha)
+  | vote id voter ch sig fee =>
+    apply withAdmission_inv (fun s => s.tracker.Nodup) st sig fee _ h
+    unfold runVote castVote
+    repeat' split
+    all_goals exact h
+  | release days val hh now sig fee =>
+    apply withAdmission_inv (fun s => s.tracker.Nodup) st sig fee _ h
+    unfold handleRelease
+    repeat' split
+    all_goals exact h
+  | stake v s amt => simp only [step, runStake]; split <;> exact h
+  | unstake v s amt =>
+    simp only [step, runUnstake]
+    split
+    · exact h
+    · split
+      · exact h
+      · have := (minusFromAddress_fields st v s amt).2.2.2.1
+        generalize minusFromAddress st v s amt = m at *
+        obtain ⟨m1, m2⟩ := m
+        cases m2
+        · exact h
+        · simp only at this ⊢; rw [this]; exact h
+  | withdraw vals v s amt =>
+    simp only [step, runWithdraw]
+    repeat' split
+    all_goals exact h
+  | beginBlock o hh now cv prev =>
+    simp only [step, beginBlock]
+    split
+    · exact h
+    · apply foldl_inv _ (fun (s : State) => s.tracker.Nodup) _ _ _ h
+      intro s p hs
+      unfold beginStep
+      repeat' split
+      all_goals exact hs
+  | elect minSelf top hh pop => exact h
+  | tally F env =>
+    simp only [step, tally, tallyWith]
+    split
+    · exact h
+    split
+    · exact h
+    · have hk := tallyFold_inv F env (fun s => s.tracker = st.tracker)
+        (fun s del id hs => by rw [(tallyOne_static F env s del id).2.1]; exact hs)
+        (sortIds st.tracker) (cleanTrackerWith st.tracker st, []) (cleanTrackerWith_fields _ st).2.2.1
+      split
+      · rw [hk]; exact h
+      · exact h.sublist List.filter_sublist
+  | commit => exact h
+
+theorem run_trackerNodup (st : State) (ops : List Op) (h : st.tracker.Nodup) : (run st ops).tracker.Nodup := by
+  induction ops generalizing st with
+  | nil => exact h
+  | cons op rest ih => exact ih (step st op) (step_trackerNodup st op h)
 
 /-! ## evaluating the sorts on inputs that are already in order (for the concrete examples) -/
 
@@ -1154,15 +1220,15 @@ theorem sortVotes_of_sorted {l : List Vote} (h : l.Pairwise fun a b => leS a.add
 /-- the tally with the two id lists given in processing order -/
 def tallyCore (F : FloatOps) (env : Env) (cl tl : List ReqId) (st : State) : State :=
   if env.active = 0 then st
+  else if env.opts.voteDec ≤ 0 ∨ env.opts.allegDec ≤ 0 then st
   else
     let r := tl.foldl (tallyOne F env) ({ st with reqs := cleanLoop cl [] st.reqs }, [])
     if r.2.isEmpty then r.1
     else { r.1 with tracker := st.tracker.filter fun i => !r.2.contains i }
 
 theorem tallyWith_core (F : FloatOps) (env : Env) (o₁ o₂ : List ReqId) (st : State)
-    (h₁ : (List.replicate o₁.length "" ++ o₁).Pairwise fun a b => leS a b = true)
-    (h₂ : o₂.Pairwise fun a b => leS a b = true) :
-    tallyWith F env o₁ o₂ st = tallyCore F env (List.replicate o₁.length "" ++ o₁) o₂ st := by
+    (h₁ : o₁.Pairwise fun a b => leS a b = true) (h₂ : o₂.Pairwise fun a b => leS a b = true) :
+    tallyWith F env o₁ o₂ st = tallyCore F env o₁ o₂ st := by
   unfold tallyWith tallyCore cleanTrackerWith
   rw [sortIds_of_sorted h₁, sortIds_of_sorted h₂]
 
